@@ -1,8 +1,211 @@
 import FtDriver.Json
 open Lean (Json)
 namespace FtDriver
-open Ft
+open Ft Ft.Codec
 
-def handleC20 (_j : Json) : Except String Verdict := throw "C20: not implemented"
+/-- an encoded fiber as observed on the implementation -/
+structure IFib where
+  fmt    : String
+  next   : Option String
+  shape  : Option Nat
+  coords : List Int
+  occs   : List Int
+  vals   : List Int
+  npay   : Nat
+  kids   : List Int
+  nnz    : Option Int
+  idx    : Option Int
+  osf    : Option Int
+  size   : Option Int
+  scan   : Option (List (Option Int × Option Int × Option Int))
+  lookup : Option (List (Int × Option Int))
+
+def optInt (j : Json) : Except String (Option Int) :=
+  if j.isNull then pure none else do pure (some (← j.getInt?))
+
+def fOpt (j : Json) (k : String) : Option Json :=
+  match j.getObjVal? k with
+  | .ok v => if v.isNull then none else some v
+  | .error _ => none
+
+def fOptInt (j : Json) (k : String) : Except String (Option Int) :=
+  match fOpt j k with
+  | none => pure none
+  | some v => do pure (some (← v.getInt?))
+
+def parseIFib (j : Json) : Except String IFib := do
+  let scan ← match fOpt j "scan" with
+    | none => pure none
+    | some s => do
+      let rows ← (← asList s).mapM (fun r => do
+        match (← asList r) with
+        | [c, ph, res] =>
+          -- a non-integer coordinate marks a scan that raised / did not terminate
+          let c' ← match c.getInt? with
+            | .ok v => pure (some v)
+            | .error _ => if c.isNull then pure none else pure (some (-999))
+          pure (c', (← optInt ph), (← optInt res))
+        | _ => throw "scan row")
+      pure (some rows)
+  let lookup ← match fOpt j "lookup" with
+    | none => pure none
+    | some s => do
+      let rows ← (← asList s).mapM (fun r => do
+        match (← asList r) with
+        | [q, h] => pure ((← q.getInt?), (← optInt h))
+        | _ => throw "lookup row")
+      pure (some rows)
+  pure {
+    fmt := ← fStr j "fmt"
+    next := match fOpt j "next" with | some v => v.getStr?.toOption | none => none
+    shape := (← fOptInt j "shape").map Int.toNat
+    coords := ← asInts (← field j "coords")
+    occs := ← asInts (← field j "occs")
+    vals := ← asInts (← field j "vals")
+    npay := ← fNat j "npay"
+    kids := ← asInts (← field j "kids")
+    nnz := ← fOptInt j "nnz"
+    idx := ← fOptInt j "idx"
+    osf := ← fOptInt j "osf"
+    size := ← fOptInt j "size"
+    scan, lookup }
+
+def parseFmts (s : String) : Except String (List Fmt) :=
+  s.toList.mapM (fun c => match c with
+    | 'U' => pure Fmt.U | 'C' => pure Fmt.C | 'B' => pure Fmt.B
+    | _ => throw s!"bad format {c}")
+
+def asNats (j : Json) : Except String (List Nat) := do pure ((← asInts j).map Int.toNat)
+def asIntss (j : Json) : Except String (List (List Int)) := do (← asList j).mapM asInts
+
+def optNatToInt (o : Option Nat) : Option Int := o.map (fun n => (n : Int))
+
+/-- static attributes of an encoded fiber: implementation vs model -/
+def attrsAgree (leaf : Bool) (F : EFib) (I : IFib) : Bool :=
+  I.fmt == F.fmt.toString && I.next == F.next.map Fmt.toString &&
+  (match F.fmt with
+   | .C => true
+   | _ => I.shape == some F.shape) &&
+  I.coords == F.coords && I.occs == F.occs && I.vals == F.vals && I.npay == F.npay &&
+  I.nnz == some (F.nnz : Int) && I.idx == some (F.idx : Int) && I.osf == some (F.osf : Int) &&
+  I.kids == (if leaf then [] else (List.range F.npay).map (fun k => ((F.kid0 + k : Nat) : Int)))
+
+def modelScan (F : EFib) : List (Option Int × Option Int × Option Int) :=
+  F.scan.map (fun e => (e.1, optNatToInt e.2, F.resolve e.2))
+
+def sizeCode (o : Option Nat) : Int := match o with | some n => n | none => -1
+
+def zipAll {α β : Type} (p : α → β → Bool) : List α → List β → Bool
+  | [], [] => true
+  | a :: r, b :: s => p a b && zipAll p r s
+  | _, _ => false
+
+def hasPair (fs : List Fmt) (a b : Fmt) : Bool :=
+  (fs.zip fs.tail).any (fun e => e.1 == a && e.2 == b)
+
+def hasEmptySub : (d : Nat) → T d → Bool
+  | 0, _ => false
+  | 1, _ => false
+  | d + 2, f => (show List (Int × T (d + 1)) from f).any
+      (fun e => (show List (Int × T d) from e.2).isEmpty || hasEmptySub (d + 1) e.2)
+
+def hasExplicitZero : (d : Nat) → T d → Bool
+  | 0, v => decide ((show Int from v) = 0)
+  | d + 1, f => (show List (Int × T d) from f).any (fun e => hasExplicitZero d e.2)
+
+def handleC20 (j : Json) : Except String Verdict := do
+  let d1 ← fNat j "d"
+  if d1 = 0 then throw "C20: depth 0"
+  let d := d1 - 1
+  let fs ← parseFmts (← fStr j "fmts")
+  let tsh ← asNats (← field j "tshape")
+  let ish ← match fOpt j "ish" with
+    | none => pure none
+    | some v => do pure (some (← asNats v))
+  let aspect ← fStr j "aspect"
+  let t ← fTree j "t" (d + 1)
+  let pre := wfB (d + 1) t && inShape (d + 1) tsh t && decide (fs.length = d + 1) &&
+             decide (tsh.length = d + 1) &&
+             (match ish with | none => true | some s => shapeGe s tsh)
+  if !pre then return { agree := true, spec := true, tags := ["OUT_OF_MODEL"] }
+  let impl ← field j "impl"
+  if (impl.getObjVal? "error").toOption.isSome then
+    return { agree := false, spec := false, why := "encode raised", tags := ["encodeError"] }
+  let root ← asInts (← field impl "root")
+  let cs ← asIntss (← field impl "cs")
+  let ps ← asIntss (← field impl "ps")
+  let ifibs ← (← fArr impl "fibs").mapM (fun r => do (← asList r).mapM parseIFib)
+  let E := encode d fs tsh ish t
+  let cont := content (κ := Int) (0 : Int) (d + 1) t
+  let baseAgree := decide (root = E.root) && decide (cs = E.cs) && decide (ps = E.ps) &&
+    zipAll (fun (k : List EFib × Nat) (is : List IFib) => zipAll (attrsAgree (k.2 == d)) k.1 is)
+      E.fibs.zipIdx ifibs
+  let allM : List EFib := E.fibs.flatten
+  let allI : List IFib := ifibs.flatten
+  let sameCount := decide (allM.length = allI.length)
+  let pairs := allM.zip allI
+  let shapeTags :=
+    (match ish with
+     | none => []
+     | some s => ["imposed"] ++ (if s != tsh then ["imposedLarger"] else [])) ++
+    (if cont.isEmpty then ["allZero"] else []) ++
+    (if hasEmptySub (d + 1) t then ["emptySub"] else []) ++
+    (if hasExplicitZero (d + 1) t then ["explicitZero"] else []) ++
+    (if allM.any (fun F => F.n == 0) then ["emptyFiber"] else []) ++
+    [s!"depth{d + 1}"] ++
+    ((fs.zip fs.tail).map (fun e => s!"pair{e.1.toString}{e.2.toString}")).eraseDups
+  match aspect with
+  | "decode" =>
+    let spec := decodesTo d fs (declShape tsh ish) root cs ps cont
+    let modelJ := Json.mkObj [("root", jInts E.root), ("cs", jList (E.cs.map jInts)), ("ps", jList (E.ps.map jInts))]
+    let layoutTag := if agreeNonC fs (effShape fs tsh ish) (declShape tsh ish) then [] else ["layoutDiffers"]
+    pure { agree := baseAgree, spec, model := modelJ, tags := shapeTags ++ layoutTag,
+           why := if spec then "" else "decode: arrays do not decode to the content" }
+  | "scan" =>
+    let agree := baseAgree && sameCount &&
+      pairs.all (fun e => e.2.scan == some (modelScan e.1))
+    let okOf (e : EFib × IFib) : Bool :=
+      match e.2.scan with
+      | some rows => decide (rows.map (fun r => (r.1, r.2.2)) = e.1.elemsSpec)
+      | none => false
+    let bad := pairs.filter (fun e => !okOf e)
+    let spec := sameCount && bad.isEmpty
+    let isCU (F : EFib) : Bool := F.fmt == .C && F.next == some .U
+    let onlyCU := !bad.isEmpty && bad.all (fun e => isCU e.1 && e.1.n ≥ 2 &&
+      -- exactly the recorded behaviour: coordinates right, occupancy_so_far for every payload
+      e.2.scan == some (modelScan e.1))
+    let tags := shapeTags ++ (if onlyCU then ["scanOnlyCoverU"] else []) ++
+      (if allM.any (fun F => isCU F && F.n ≥ 2) then ["CoverU2"] else [])
+    let why := if spec then "" else if onlyCU then "scan:C-over-U: every element designates the first child"
+               else "scan: elements differ"
+    pure { agree, spec, tags, why,
+           model := jList (allM.map (fun F => jList ((modelScan F).map (fun r =>
+             jList [r.1.elim Json.null jInt, r.2.1.elim Json.null jInt, r.2.2.elim Json.null jInt])))) }
+  | "size" =>
+    let agree := baseAgree && sameCount &&
+      pairs.all (fun e => e.2.size == some (sizeCode e.1.getSize))
+    let bad := pairs.filter (fun e => e.2.size != some (e.1.words : Int))
+    let spec := sameCount && bad.isEmpty
+    let onlyEmpty := !bad.isEmpty && bad.all (fun e => e.2.size == some (-1) && e.1.sizeAsserts)
+    let tags := shapeTags ++ (if onlyEmpty then ["sizeAssertOnlyEmpty"] else [])
+    let why := if spec then "" else if onlyEmpty then "size:assert fires on a fiber without elements"
+               else "size: differs from the words of the layout"
+    pure { agree, spec, tags, why,
+           model := jList (allM.map (fun F => jList [jInt (sizeCode F.getSize), jNat F.words])) }
+  | "lookup" =>
+    let cpairs := pairs.filter (fun e => e.1.fmt == .C)
+    let agree := baseAgree && sameCount &&
+      cpairs.all (fun e => match e.2.lookup with
+        | some rows => rows.all (fun r => r.2 == optNatToInt (e.1.coordToHandle r.1))
+        | none => false)
+    let spec := sameCount &&
+      cpairs.all (fun e => match e.2.lookup with
+        | some rows => !rows.isEmpty && rows.all (fun r => r.2 == optNatToInt (lowerHandle e.1.ecoords r.1))
+        | none => false)
+    let tags := shapeTags ++
+      (if cpairs.any (fun e => e.1.n ≥ 3) then ["bsearch"] else []) ++
+      (if cpairs.isEmpty then ["noCfiber"] else [])
+    pure { agree, spec, tags, why := if spec then "" else "lookup: coordToHandle is not the lower bound" }
+  | _ => throw s!"C20: unknown aspect {aspect}"
 
 end FtDriver
